@@ -215,6 +215,24 @@ theorem placed_bit (b : BitBuffer) (p : Nat) (x : Bool) (h : b.Inv) (hp : p < b.
         simp only [show p ≠ i by omega, ite_false]
         congr 1; omega
 
+/-- … and the call the crate itself makes, `with_write_position_at(p, |b| b.write_bit(x))` (the model's
+    `patchBit`, which the scope machine of `Uper/Scope.lean` uses for every presence and extension bit):
+    inside the written bits it sets exactly bit `p` -/
+theorem patch_bit (b : BitBuffer) (p : Nat) (x : Bool) (h : b.Inv) (hp : p < b.wp) :
+    ∃ b', b.patchBit p x = ok b' ∧ b'.Inv ∧ b'.wp = b.wp ∧ b'.rp = b.rp ∧
+      b'.buffer.length = b.buffer.length ∧ b'.abs = b.abs.set p x := by
+  obtain ⟨b', h1, h2, h3, h4, h5, h6⟩ := BitBuffer.patchBit_spec b p x h hp
+  refine ⟨b', h1, h2, h3, h4, h5, ?_⟩
+  apply List.ext_getElem
+  · simp [BitBuffer.abs, h3]
+  · intro i hi1 hi2
+    simp only [BitBuffer.abs] at *
+    rw [getElem_bitsOf, h6, List.getElem_set]
+    by_cases hip : p = i
+    · subst hip; simp
+    · simp [hip, getElem_bitsOf]
+      intro hi; exact absurd hi.symm hip
+
 /-- reading back from the buffer: the mirror image, bounded by the *declared* length -/
 theorem buffer_read (b : BitBuffer) (dst : List Byte) (off len : Nat) (h : b.Inv)
     (hrp : b.rp ≤ b.wp) (hd : off + len ≤ dst.length * 8) :
@@ -248,6 +266,7 @@ example : bitStringCopyBulked [0#8, 0#8, 0#8, 0#8] 0 [0xff#8, 0xff#8, 0xff#8, 0x
     = ok [0xe0#8, 0x00#8, 0x01#8, 0xff#8, 0xff#8] := by decide
 example : (WOp.bits [0xAB#8, 0xCD#8] 3 9).Valid := by simp [WOp.Valid]
 example : (BitsView.mk [0xAA#8, 0xBB#8] 0 12).Inv := by simp [BitsView.Inv]
+example : (BitBuffer.mk [0xff#8, 0xf0#8] 12 0).patchBit 9 false = ok (BitBuffer.mk [0xff#8, 0xb0#8] 12 0) := by decide
 -- `placed_write`: a 12-bit buffer, 5 bits from source offset 2 placed at position 3
 example : (BitBuffer.mk [0xff#8, 0xf0#8] 12 0).atPos 3 (fun b => b.writeBitsWithOffsetLen [0x00#8] 2 5)
     = ok (BitBuffer.mk [0xe0#8, 0xf0#8] 12 0) := by decide
